@@ -99,18 +99,18 @@ type Place struct {
 
 type fctx struct {
 	callRes map[string][]Term // results of the last contract-call of each callee (root context; $result)
-	vc     *VC
-	fn     *ssa.Function
-	con    *Contract
-	sc     *Script
-	pfx    string
-	depth  int
-	vals   map[ssa.Value]Term
-	tuples map[ssa.Value][]Term
-	places map[ssa.Value]*Place
-	mapKey map[ssa.Value]string // MakeMap value -> state key
-	clos   map[ssa.Value]*ssa.MakeClosure
-	ranges map[ssa.Value]*rangeInfo
+	vc      *VC
+	fn      *ssa.Function
+	con     *Contract
+	sc      *Script
+	pfx     string
+	depth   int
+	vals    map[ssa.Value]Term
+	tuples  map[ssa.Value][]Term
+	places  map[ssa.Value]*Place
+	mapKey  map[ssa.Value]string // MakeMap value -> state key
+	clos    map[ssa.Value]*ssa.MakeClosure
+	ranges  map[ssa.Value]*rangeInfo
 
 	reach     map[*ssa.BasicBlock]Term
 	exit      map[*ssa.BasicBlock]*State
@@ -679,6 +679,26 @@ func (vc *VC) TranslateFunction(fn *ssa.Function, con *Contract) (sc *Script, er
 		if e := f.applyLemma(ap, env); e != nil {
 			return nil, e
 		}
+	}
+	for _, name := range con.Unfold {
+		d, ok := f.vc.cs.Defs[name]
+		if !ok || !d.Opaque {
+			return nil, fmt.Errorf("contract error: unfold: %s is not an opaque definition", name)
+		}
+		vars := map[string]Term{}
+		var binders, argS []string
+		for i, p := range d.Params {
+			srt := sortByName(d.Sorts[i])
+			vars[p] = Term{S: "q!" + p, Sort: srt}
+			binders = append(binders, "(q!"+p+" "+srt.SMT()+")")
+			argS = append(argS, "q!"+p)
+		}
+		body, e := ToSMT(d.Body, &Env{Vars: vars, Defs: f.vc.cs.Defs, Reveal: map[string]bool{}, Pure: f.vc.pureResolver(f.fn)})
+		if e != nil {
+			return nil, fmt.Errorf("contract error: unfold %s: %v", name, e)
+		}
+		app := fmt.Sprintf("(spec.%s %s)", name, strings.Join(argS, " "))
+		sc.emit("(assert (forall (%s) (! (= %s %s) :pattern (%s))))", strings.Join(binders, " "), app, body.S, app)
 	}
 	if con.Valid != nil {
 		t, e := ToSMT(con.Valid.Expr, env)
